@@ -150,6 +150,8 @@ def random_fill(r, allow_gradients=True, allow_special=True):
 
 
 def fill_markup(fill: FillSpec, gid, bbox_user):
+    if getattr(fill, "abs_geom", None) is not None:   # absolute userSpaceOnUse geometry, independent of the shape
+        bbox_user = fill.abs_geom
     """-> (fill attribute value, defs markup).  userSpaceOnUse geometry is laid over bbox_user (x,y,w,h)."""
     if fill.kind == "current":
         return "currentColor", ""
@@ -297,4 +299,99 @@ def random_scenario(r, n_glyphs=None, reuse_bias=0.5, allow_gradients=True, allo
         if layers and layers[-1].group is not None and (len(layers) < 2 or layers[-2].group != layers[-1].group):
             layers[-1].group = None
         glyphs.append((CODEPOINTS[g % len(CODEPOINTS)], vb, layers))
+    return glyphs
+
+
+# ------------------------------------------------------------------ coincidence-seeking families
+# Random floats never hit the exact coincidences some encoder branches test for (integer scale centres, a scale of
+# exactly 1 on one axis, identical gradients in different documents, int16 overflow fallbacks).  These generators aim
+# at them on purpose; they are used by C01/C02/C05/C06 next to the model scenarios and the random ones.
+LATTICE_CONFIG = {"upem": 1000, "ascender": 800, "descender": -200, "width": 1000}   # viewBox 100 -> 10 units per unit
+
+
+def lattice_scenario(r, n_glyphs=None):
+    """Axis-aligned copies on an integer lattice: per-axis scales from {1, 2, 3, 1/2, -1}, integer translations, so
+    that reuse transforms are scale(+translate) with a scale of exactly 1 on one axis and integer scale centres."""
+    n_glyphs = n_glyphs or r.randrange(1, 3)
+    cls = r.choice(["F", "T", "sq", "bar"])
+    cell = r.choice([2, 4])
+    glyphs = []
+    specs_all = []
+    for g in range(n_glyphs):
+        specs = []
+        for i in range(r.randrange(2, 4)):
+            sx = r.choice([1, 1, 2, 3, 0.5, -1])
+            sy = r.choice([1, 1, 2, 0.5, 3])
+            if r.random() < 0.2:
+                sx, sy = -1, -1          # half turn
+            elif r.random() < 0.1:
+                sx, sy = r.choice([(-2, -1), (1, -1), (-1, -2)])
+            tx, ty = r.randrange(15, 80), r.randrange(15, 80)
+            fill = random_fill(r, allow_gradients=(r.random() < 0.4), allow_special=False)
+            specs.append(LayerSpec(cls, (cell * sx, 0, 0, cell * sy, tx, ty), fill, r.choice([1, 1, 0.5])))
+        glyphs.append((CODEPOINTS[g], (0, 0, 100, 100), specs))
+    return glyphs
+
+
+def thin_bar_scenario(r, parse_overflow=False):
+    """A solid donor bar and a far-away copy of extreme aspect ratio carrying an objectBoundingBox radial gradient
+    (elliptical, so it is wrapped in a transform).  With LATTICE_CONFIG the gradient parses, but counter-transforming
+    it into the donor's frame overflows int16 and takes the fallback branches of the migration.
+    parse_overflow=True puts the gradient bar where even parsing overflows (known finding KF-C01-radial-overflow)."""
+    long_side = r.choice([70, 80, 90])
+    thin = r.choice([2, 3])
+    horizontal = r.random() < 0.5
+    st = [(0.0, r.choice(PALETTE), 1), (1.0, r.choice(PALETTE), 1)]
+    grad = FillSpec("radial", stops=st, units="objectBoundingBox", spread="pad", gt=None, geom=(0.5, 0.5, 0.5), focal=None)
+    solid = FillSpec("solid", color=r.choice(PALETTE), index=None)
+    # the copy (with the gradient) sits where its font-space bbox origin is small; the donor far away on the thin axis
+    near, far = (r.choice([88, 92, 85]), r.choice([6, 8, 10])) if horizontal else (r.choice([6, 8, 10]), r.choice([88, 92]))
+    if parse_overflow:
+        near = far
+    if horizontal:
+        donor = LayerSpec("sq", (long_side / 2, 0, 0, thin / 2, 50, far), solid)
+        copy = LayerSpec("sq", (long_side / 2, 0, 0, thin / 2, 50, near), grad)
+    else:
+        donor = LayerSpec("sq", (thin / 2, 0, 0, long_side / 2, far, 50), solid)
+        copy = LayerSpec("sq", (thin / 2, 0, 0, long_side / 2, near, 50), grad)
+    if parse_overflow:
+        return [(CODEPOINTS[0], (0, 0, 100, 100), [copy])]
+    if r.random() < 0.5:
+        return [(CODEPOINTS[0], (0, 0, 100, 100), [donor, copy])]
+    return [(CODEPOINTS[0], (0, 0, 100, 100), [donor]), (CODEPOINTS[1], (0, 0, 100, 100), [copy])]
+
+
+def shared_gradient_docs_scenario(r):
+    """Two or three OT-SVG documents (sharing groups) whose glyphs use IDENTICAL userSpaceOnUse gradients; in the later
+    groups the first glyph is solid-only and shares a shape with the next glyph (so <defs> is non-empty before the
+    document's first gradient is emitted)."""
+    st = [(0.0, r.choice(PALETTE), 1), (1.0, r.choice(PALETTE), r.choice([1, 0.5]))]
+    kind = r.choice(["linear", "radial"])
+
+    def grad():
+        if kind == "linear":
+            return FillSpec("linear", stops=st, units="userSpaceOnUse", spread="pad", gt=None, geom=(0.0, 0.0, 1.0, 1.0),
+                            abs_geom=(20, 10, 70, 70))
+        return FillSpec("radial", stops=st, units="userSpaceOnUse", spread="pad", gt=None, geom=(0.5, 0.5, 0.5), focal=None,
+                        abs_geom=(20, 10, 70, 70))
+
+    glyphs = []
+    cp = 0x1F600
+    for grp in range(r.randrange(2, 4)):
+        shared_cls = ["F", "T", f"poly:{grp + 11}"][grp % 3]
+        own_cls = [f"blob:{grp + 3}", f"poly:{grp + 40}"][grp % 2]
+        m1 = random_isometry(r, 100.0, 6)
+        m2 = random_isometry(r, 100.0, 6)
+        # the gradient geometry must be IDENTICAL across documents: same shape, same place, same bbox
+        gm = (5, 0, 0, 5, 30, 60)
+        solid = FillSpec("solid", color=r.choice(PALETTE), index=None)
+        first = [LayerSpec(shared_cls, m1, solid)]
+        # the gradient-carrying shape differs per group (else the groups would merge into one document); the
+        # userSpaceOnUse gradient itself is identical
+        second = [LayerSpec(shared_cls, m2, FillSpec("solid", color=r.choice(PALETTE), index=None)), LayerSpec(own_cls, gm, grad())]
+        if grp == 0 and r.random() < 0.5:
+            first.append(LayerSpec(f"poly:{grp + 70}", gm, grad()))
+        glyphs.append(((cp,), (0, 0, 100, 100), first))
+        glyphs.append(((cp + 1,), (0, 0, 100, 100), second))
+        cp += 2
     return glyphs
